@@ -108,6 +108,9 @@ def oracle(case, R):
     bS = sorted(rng.choice(nS, nb, replace=False).tolist())
     bL = sorted(rng.choice(nL, nb, replace=False).tolist())
     freq = np.array(case["freq"], float)
+    if case.get("freq_long"):
+        # a sweep longer than any plausible internal block of the frequency-domain solvers (4096 / 8192 points)
+        freq = np.linspace(0.31, 61.7, int(case["freq_long"]))
     nf = len(freq)
     # external forces on source non-interface DOF (complex)
     fext = np.zeros((nS, nf), complex)
@@ -308,6 +311,15 @@ def cases(draw):
             "fscale": draw(st.sampled_from([1.0, 1.0, 1e-12, 1e10]))}
 
 
+@st.composite
+def long_cases(draw):
+    c = draw(cases())
+    c.update(freq_long=draw(st.sampled_from([4097, 5000, 8193])), nS=min(c["nS"], 4), nL=min(c["nL"], 3),
+             nb=min(c["nb"], 2), fs="none")
+    return c
+
+
 PARTS = [
     Part("ntfl", oracle, strategy=cases, quick=(16, 80), thorough=(16, 2500)),
+    Part("ntfl_long", oracle, strategy=long_cases, quick=(8, 2), thorough=(16, 8)),
 ]
